@@ -213,6 +213,9 @@ def strata(tier):
     for j, lit in enumerate([{"kind": "ref", "path": ["a", "b"]}, {"a": 1, "Path.length": 2, "z": 0}, {"path": ["a"], "kind": "ref"},
                              {"k": 0, "path": ["a"], "PATH.first": 3}, {"kind": "r%d" % 1, "path": 3}, {"x": [1], "path": {"path": 1}},
                              {"kind": "ref2", "path": ["a", "b"]}, {"kind": "ref3", "path": ["a", "b"]}, {"kind": "ref4", "path": ["a", "b"]},
+                             {"path": {"path": ["b"]}}, {"path": [{"path": ["b"]}]}, {"path": {"path.length": ["b"]}},
+                             {"path": ["A", "B"], "target": {"path.length": ["b"]}}, {"k": {"path": ["b"]}, "path": 1},
+                             {"path": {"k": {"path": ["b"]}}}, {"Path.first": {"PATH": ["b"]}},
                              {"path": ["a"]}, {"path": 3}, {"path.length": ["a"]}, {"path": ["a"], "b": 1}, {"Path": ["a"]},
                              {"PATH.First": 1}, {"pAtH.length": ["a"]}, {"path.map_keys": 1}, {"path.first.map_values": ["a_b"]}]):
         for fn in ("equal_to", "in_"):
